@@ -158,7 +158,8 @@ theorem sortNested_rows (lt : α → α → Bool) (isNull : α → Bool) (F : NF
       blocks.map List.length = lens ∧
       (∀ i, i < lens.length → (blocks.getD i []).Perm
         ((List.range flat.index.length).filter fun p => flat.index.getD p (.int 0) == Label.int (i : Int))) ∧
-      (∀ b ∈ blocks, b.Pairwise fun p q => lexLe lt isNull naFirst (sortKeysAt kcols p q) = true) := by
+      (∀ b ∈ blocks, b.Pairwise fun p q => lexLe lt isNull naFirst (sortKeysAt kcols p q) = true) ∧
+      blocks = Spec.splitBy lens (sortPerm lt isNull naFirst flat.index kcols) := by
   intro lens flat kcols
   have hflat : F.ordinalFlat nest = .ok flat := ordinalFlat_refines F nest c hc hclean hch hidx
   have hkc : keys.mapM (sortKeyCol flat) = .ok kcols := by
@@ -203,7 +204,7 @@ theorem sortNested_rows (lt : α → α → Bool) (isNull : α → Bool) (F : NF
       | cons _ _ => simp
     simpa [cols'] using this
   obtain ⟨col, hcol, hrows⟩ := setFilteredFlatDf_rows F nest cols' lens hn hcols' hne'
-  refine ⟨blocks, col, ?_, hrows, hblens, ?_, ?_⟩
+  refine ⟨blocks, col, ?_, hrows, hblens, ?_, ?_, rfl⟩
   · unfold NFrame.sortNested
     simp only [hflat, hkc, bind, Except.bind]
     show F.setFilteredFlatDf nest (flat.reorder perm default) = _
@@ -364,7 +365,7 @@ theorem sortNested_permutes_rows (lt : α → α → Bool) (isNull : α → Bool
         σ.Pairwise (fun q r => lexLe lt isNull naFirst
           (sortKeysAt kcols (rowStart lens i + q) (rowStart lens i + r)) = true) := by
   intro lens kcols
-  obtain ⟨blocks, col, hok, hrows, hblens, hperm, hsorted⟩ :=
+  obtain ⟨blocks, col, hok, hrows, hblens, hperm, hsorted, _⟩ :=
     sortNested_rows lt isNull F nest c hc hclean hch hidx keys hkeys naFirst hlt
   have hn : lens.length = F.index.length := by
     show (c.rows.map Row.len).length = _
